@@ -108,7 +108,7 @@ def Batch.rows (b : Batch) : List Row := (List.range b.n).map b.rowAt
 
 /-! ## mergeBatches -/
 
-inductive MergeErr | noBatches | typePanic
+inductive MergeErr | noBatches | typeConflict
 deriving DecidableEq, Repr
 
 def unionNames (bs : List Batch) : List String := (bs.flatMap Batch.names).eraseDups
@@ -119,8 +119,9 @@ def firstTy (bs : List Batch) (nm : String) : Ty :=
   | some c => c.ty
   | none => .i64
 
-/-- `copy(merged[name].([]T)[rowOffset:], v)` type-asserts against the first-seen type: a later
-batch with another Go type for the same name panics. -/
+/-- `dst, ok := merged[name].([]T)` checks against the first-seen type: a later
+batch with another Go type for the same name makes mergeBatches return the error
+`column %q changes type between batches (…)` (d29da22; it used to be a type-assertion panic). -/
 def typeConflict (bs : List Batch) : Bool :=
   bs.any (fun b => b.cols.any (fun p => decide (p.2.ty ≠ firstTy bs p.1)))
 
@@ -156,7 +157,7 @@ def mergeBatches (bs : List Batch) : Except MergeErr Batch :=
   | [] => .error .noBatches
   | [b] => .ok b
   | _ =>
-    if typeConflict bs then .error .typePanic
+    if typeConflict bs then .error .typeConflict
     else .ok { cols := (unionNames bs).map (fun nm => (nm, mergedCol bs nm)) }
 
 /-! ## groupByHour -/
